@@ -252,13 +252,14 @@ def stat_case(draw):
     geff = draw(st.floats(-20, 20))
     gam = geff / (nu * 4 * beta / (beta + 1) ** 2)
     return dict(nu=nu, beta=beta, gamma=gam, h=draw(st.sampled_from([0.5, 0.5, 0.1, 0.9, 0.3])), T=draw(st.floats(0.05, 1.0)), theta0=draw(st.floats(0.5, 5.0)),
-                passing=draw(st.sampled_from(['const', 'nu-func', 'all-func'])))
+                passing=draw(st.sampled_from(['const', 'nu-func', 'all-func', 'X'])), alpha=draw(st.sampled_from([1.0, 1.0, 0.5, 2.5])))
 
 
 @REG.relation('R4-stationarity', strategy=stat_case, quick=(96, 16), thorough=(1500, 16))
 def r4(c, rec):
     """The equilibrium density, integrated further under the same size and selection, is unchanged up to a grid error that
-    vanishes under refinement (error(2 pts) <= 0.6 error(pts), or below 1e-5)."""
+    vanishes under refinement (error(2 pts) <= 0.75 error(pts), or below 1e-5; a first-order grid error approaches the ratio 0.5 from
+    above - 0.64 was measured between 40 and 80 points - while a density that is not stationary gives a ratio of 1)."""
     n = 12
     lab = ['nu=1' if c['nu'] == 1 else 'nu!=1', 'gamma~0' if abs(c['gamma']) < 1e-3 else 'gamma!=0', 'h=0.5' if c['h'] == 0.5 else 'h!=0.5',
            'passing=' + c.get('passing', 'const')]
@@ -271,6 +272,18 @@ def r4(c, rec):
     Ds = []
     for pts in (40, 80):
         xx = Numerics.default_grid(pts)
+        if mode == 'X':
+            # the X-chromosome pair: equilibrium density phi_1D_X under the X-chromosome integrator (constants only; alpha = male to
+            # female mutation-rate ratio, beta = breeding ratio)
+            xkw = dict(nu=c['nu'], theta0=c['theta0'], gamma=c['gamma'], h=c['h'], beta=c['beta'], alpha=c.get('alpha', 1.0))
+            with dadi_call('phi_1D_X / one_pop_X'):
+                phi = PhiManip.phi_1D_X(xx, **xkw)
+                require(np.isfinite(phi).all() and (phi >= 0).all(), 'phi_1D_X%r is not finite and non-negative' % (xkw,))
+                fs0 = np.asarray(np.ma.getdata(dadi.Spectrum.from_phi(phi, (n,), (xx,))), float)
+                phi2 = Integration.one_pop_X(phi, xx, c['T'], **xkw)
+                fs1 = np.asarray(np.ma.getdata(dadi.Spectrum.from_phi(phi2, (n,), (xx,))), float)
+            Ds.append(np.abs(fs1[1:n] - fs0[1:n]).max() / np.abs(fs0[1:n]).max())
+            continue
         with dadi_call('phi_1D / one_pop'):
             phi = PhiManip.phi_1D(xx, nu=c['nu'], theta0=c['theta0'], gamma=c['gamma'], h=c['h'], beta=c['beta'])
             fs0 = np.asarray(np.ma.getdata(dadi.Spectrum.from_phi(phi, (n,), (xx,))), float)
@@ -278,8 +291,12 @@ def r4(c, rec):
             fs1 = np.asarray(np.ma.getdata(dadi.Spectrum.from_phi(phi2, (n,), (xx,))), float)
         Ds.append(np.abs(fs1[1:n] - fs0[1:n]).max() / np.abs(fs0[1:n]).max())
     rec.err('drift at pts=80', Ds[1])
-    if not (Ds[1] <= 0.6 * Ds[0] or Ds[1] <= 1e-5):
+    if not (Ds[1] <= 0.75 * Ds[0] or Ds[1] <= 1e-5):
         sig = dict(finding='phi_1D-nu-in-selection') if (c['nu'] != 1 and abs(c['gamma']) > 1e-3) else {}
+        if mode == 'X':
+            raise Violation('phi_1D_X(nu=%r, gamma=%r, h=%r, beta=%r, alpha=%r) is not stationary under one_pop_X with the same parameters: spectrum '
+                            'drifts by %.3e at 40 grid points and %.3e at 80 (does not vanish under refinement)'
+                            % (c['nu'], c['gamma'], c['h'], c['beta'], c.get('alpha', 1.0), Ds[0], Ds[1]), **(dict(finding='phi_1D_X-nu-in-selection') if sig else {}))
         raise Violation('phi_1D(nu=%r, gamma=%r, h=%r, beta=%r) is not stationary under one_pop with the same parameters (%s): spectrum drifts by '
                         '%.3e at 40 grid points and %.3e at 80 (does not vanish under refinement)' % (c['nu'], c['gamma'], c['h'], c['beta'], mode, Ds[0], Ds[1]), **sig)
 
